@@ -13,9 +13,9 @@ from vlib.lab import Lab
 PROPERTY_ID = "C11"
 LEVEL = "exploration"
 RULE = (
-    "Generated: 1-4 inner traced sources (cold / synchronous / hot; 0-4 distinct ints each so every element names its "
+    "Generated: 1-4 (thorough 1-5) inner traced sources (cold / synchronous / hot; 0-4 (thorough 0-6) distinct ints each so every element names its "
     "inner, gaps 0-3, terminal completion / error / none = never completes) and an outer timeline (cold / synchronous / "
-    "hot, 0-5 elements selecting inners, possibly the same inner several times, terminal completion / error / none); "
+    "hot, 0-5 (thorough 0-7) elements selecting inners, possibly the same inner several times, terminal completion / error / none); "
     "forms merge_all, merge(max_concurrent=1..4), flat_map (mapper and constant-observable forms), flat_map_indexed, "
     "concat_map, and the n-ary reactivex.merge(...) / ops.merge(...) forms (outer = the argument list); subscribed at a "
     "generated tick on the virtual scheduler (n-ary forms also through the default trampoline). Oracle: an independent "
@@ -197,8 +197,8 @@ def _run(case):
 
 
 @st.composite
-def _cases(draw, forms):
-    inn = draw(inner_specs())
+def _cases(draw, forms, big=False):
+    inn = draw(inner_specs(max_inners=5, max_len=6) if big else inner_specs())
     form = draw(st.sampled_from(forms))
     c = {"form": form, "inners": inn, "t0": draw(st.integers(0, 3))}
     if form in FORMS_NARY:
@@ -208,7 +208,7 @@ def _cases(draw, forms):
         c["sel"] = [draw(st.integers(0, len(inn) - 1)) for _ in range(k)]
         c["sched"] = draw(st.sampled_from(["lab", "none"]))
     else:
-        c["outer"] = draw_outer(draw, len(inn))
+        c["outer"] = draw_outer(draw, len(inn), max_len=7 if big else 5)
         if form == "merge_mc":
             c["maxc"] = draw(st.sampled_from([1, 2, 2, 3, 1, 4]))
         if form == "flat_map_const":
@@ -219,8 +219,9 @@ def _cases(draw, forms):
 def checks(tier):
     ex = lambda q: {"quick": q, "thorough": 16 * 10 * q}  # noqa: E731
     sh = {"quick": 4, "thorough": 16}
+    big = tier == "thorough"
     return [
-        Check("unbounded", _run, strategy=_cases(["merge_all", "flat_map", "flat_map_indexed", "flat_map_const", "merge_all", "flat_map"]), examples=ex(1600), shards=sh),
-        Check("limited", _run, strategy=_cases(["merge_mc", "merge_mc", "concat_map"]), examples=ex(1600), shards=sh),
-        Check("nary", _run, strategy=_cases(FORMS_NARY), examples=ex(800), shards=sh),
+        Check("unbounded", _run, strategy=_cases(["merge_all", "flat_map", "flat_map_indexed", "flat_map_const", "merge_all", "flat_map"], big), examples=ex(1600), shards=sh),
+        Check("limited", _run, strategy=_cases(["merge_mc", "merge_mc", "concat_map"], big), examples=ex(1600), shards=sh),
+        Check("nary", _run, strategy=_cases(FORMS_NARY, big), examples=ex(800), shards=sh),
     ]
